@@ -240,6 +240,10 @@ class ProtocolMixin(object):
         """
 
         name = ctx.method_request_string
+        if name is None:
+            # e.g. a SOAP Fault sent as a request: there is no method to call
+            return []
+
         if not name.startswith(u"{"):
             name = u'{%s}%s' % (self.app.interface.get_tns(), name)
 
